@@ -295,11 +295,96 @@ def Space.searchV (s : Space) (q : Pos) (r : Int) (v : Nat → Bool) : List Nat 
 def Space.searchAcc (s : Space) (acc : List Nat) (q : Pos) (r : Int) (v : Nat → Bool) : List Nat :=
   acc ++ s.searchV q r v
 
-/-! ### insertion sort, for canonical output in the driver -/
+/-! ### `searchers.FindPlayers` and the scene world it looks candidates up in
+
+`Validate(id, dist)`, statement by statement: the owner is rejected; `owner.GetWorld().GetEntity(id) == nil`
+(an id the world does not know: `gone`) is rejected; a dead unit is rejected; a unit whose type is not
+`define.UnitAvatar` (= 5 in `servers/scene/define/unit.go`) is rejected; everything else is accepted.
+`AddCandidate` appends to `tars`, `MakeResults` returns `tars` (see `searchAcc`). -/
+
+structure UnitInfo where
+  kind : Nat := 5      -- define.UnitType: 0 none, 1 exit, 2 test, 3 camera, 4 monster, 5 avatar
+  dead : Bool := false
+  gone : Bool := false -- the world has no entity with that id
+  deriving DecidableEq
+
+def unitAvatar : Nat := 5
+
+/-- the world: id ↦ what is known about the unit; an id never described is a live avatar (harness convention) -/
+abbrev World := List (Nat × UnitInfo)
+
+def World.info (w : World) (id : Nat) : UnitInfo :=
+  match w.find? (fun p => p.1 == id) with
+  | some p => p.2
+  | none => {}
+
+def World.set (w : World) (id : Nat) (u : UnitInfo) : World := (id, u) :: w.filter (fun p => p.1 != id)
+
+def findPlayersValidate (w : World) (owner : Nat) (id : Nat) : Bool :=
+  if id == owner then false
+  else
+    let u := w.info id
+    if u.gone then false
+    else if u.dead then false
+    else if u.kind != unitAvatar then false
+    else true
+
+/-! ### a long-lived space: the same query again and again
+
+`SearchCircleTargets` of both Go implementations reads the index and writes nothing (no field of
+`ZoneSpace` / `Zone` / `ZoneEntityInfo` / `SimpleSpace` is assigned on that path), so the model's query is a
+function of the state and returns no new state.  `searchRepeat n` is what the op `qn` of the correspondence run
+observes: the first answer and how many of the `n` answers equal it (compared as sorted lists, the way the
+harness compares them). -/
+
 def insertSorted (a : Nat) : List Nat → List Nat
   | [] => [a]
   | b :: l => if a ≤ b then a :: b :: l else b :: insertSorted a l
 
 def sortNat (l : List Nat) : List Nat := l.foldr insertSorted []
+
+/-- answers of `n` consecutive queries, the state threaded through (a query returns the state it was given) -/
+def repeatAnswers {σ : Type} (query : σ → σ × List Nat) : σ → Nat → List (List Nat)
+  | _, 0 => []
+  | s, n + 1 => let (s', a) := query s; a :: repeatAnswers query s' n
+
+def countSame (l : List (List Nat)) : List Nat × Nat :=
+  match l with
+  | [] => ([], 0)
+  | a :: _ => (a, (l.filter fun b => sortNat b == sortNat a).length)
+
+def Space.searchRepeat (s : Space) (q : Pos) (r : Int) (v : Nat → Bool) (n : Nat) : List Nat × Nat :=
+  countSame (repeatAnswers (fun s : Space => (s, s.searchV q r v)) s n)
+
+def Simple.searchRepeat (s : Simple) (q : Pos) (r : Int) (v : Nat → Bool) (n : Nat) : List Nat × Nat :=
+  countSame (repeatAnswers (fun s : Simple => (s, s.searchV q r v)) s n)
+
+theorem repeatAnswers_readonly {σ : Type} (f : σ → List Nat) (s : σ) (n : Nat) :
+    repeatAnswers (fun s => (s, f s)) s n = List.replicate n (f s) := by
+  induction n with
+  | zero => rfl
+  | succ n ih => simp [repeatAnswers, ih, List.replicate_succ]
+
+theorem countSame_replicate (a : List Nat) (n : Nat) : countSame (List.replicate (n + 1) a) = (a, n + 1) := by
+  simp [countSame, List.replicate_succ]
+
+/-- what the compiled driver evaluates instead of `n` identical searches (proved equal below) -/
+def Space.searchRepeatFast (s : Space) (q : Pos) (r : Int) (v : Nat → Bool) (n : Nat) : List Nat × Nat :=
+  if n = 0 then ([], 0) else (s.searchV q r v, n)
+
+def Simple.searchRepeatFast (s : Simple) (q : Pos) (r : Int) (v : Nat → Bool) (n : Nat) : List Nat × Nat :=
+  if n = 0 then ([], 0) else (s.searchV q r v, n)
+
+@[csimp] theorem Space.searchRepeat_eq_fast : @Space.searchRepeat = @Space.searchRepeatFast := by
+  funext s q r v n
+  cases n with
+  | zero => rfl
+  | succ n => simp [Space.searchRepeat, Space.searchRepeatFast, repeatAnswers_readonly, countSame_replicate]
+
+@[csimp] theorem Simple.searchRepeat_eq_fast : @Simple.searchRepeat = @Simple.searchRepeatFast := by
+  funext s q r v n
+  cases n with
+  | zero => rfl
+  | succ n => simp [Simple.searchRepeat, Simple.searchRepeatFast, repeatAnswers_readonly, countSame_replicate]
 
 end Cell2v.Space
